@@ -511,11 +511,23 @@ var Faults = []Fault{
 		return true
 	}},
 	{"unknown-input-field", "ValuesOfCorrectType", func(c *FCtx) bool {
-		tv, ok := c.pickValue(func(tv typedValue, td *tsys.Def) bool { return td != nil && td.Kind == "input" && tv.val.Kind == m.VObject && !td.HasDir("oneOf") })
+		tv, ok := c.pickValue(func(tv typedValue, td *tsys.Def) bool { return td != nil && td.Kind == "input" && tv.val.Kind == m.VObject })
 		if !ok {
 			return false
 		}
 		tv.val.Fields = append(tv.val.Fields, m.ObjField{Name: c.R.Pick("nope", "idd"), Value: val(m.VInt, "1")})
+		return true
+	}},
+	{"oneof-unknown-field", "ValuesOfCorrectType", func(c *FCtx) bool {
+		// the single member of a @oneOf literal is not a field of the type (valued null, a literal or a variable-free list)
+		tv, ok := c.pickValue(func(tv typedValue, td *tsys.Def) bool {
+			return td != nil && td.Kind == "input" && td.HasDir("oneOf") && tv.val.Kind == m.VObject
+		})
+		if !ok {
+			return false
+		}
+		v := []*m.Value{val(m.VNull, "null"), val(m.VInt, "1"), {Kind: m.VList}, val(m.VString, "x")}[c.R.Intn(4)]
+		tv.val.Fields = []m.ObjField{{Name: c.R.Pick("nope", "byTitle", "aa"), Value: v}}
 		return true
 	}},
 	{"missing-required-input-field", "ValuesOfCorrectType", func(c *FCtx) bool {
@@ -1141,7 +1153,7 @@ func init() {
 		}},
 		Fault{"near-miss-input-field", "ValuesOfCorrectType", func(c *FCtx) bool {
 			tv, ok := c.pickValue(func(tv typedValue, td *tsys.Def) bool {
-				return td != nil && td.Kind == "input" && tv.val.Kind == m.VObject && !td.HasDir("oneOf") && len(td.Fields) > 0
+				return td != nil && td.Kind == "input" && tv.val.Kind == m.VObject && len(td.Fields) > 0
 			})
 			if !ok {
 				return false
